@@ -21,6 +21,7 @@ ASSUMPTIONS = ["'closest': the nearest element by exact distance is demanded; wh
                "than the rounding of the subtractions) that neighbour is accepted as well; never on the dyadic lattice",
                "inputs outside the alphabets (NaN, unsorted queries, huge arrays) are not covered"]
 ANCHORS = {"sorted_array_utils.py": [(347, 378), (410, 444), (471, 511), (543, 549)]}
+FORMS_HARNESSES = "all"
 EXPLANATION = "exhaustive enumeration of the bounded input lattice against the bisect definition"
 
 
@@ -326,7 +327,7 @@ def harnesses(tier, seed):
     hs = [{"name": "same-array-edited-in-place", "body": seq_body},
           {"name": "lattice", "body": make_lattice_body(arrays, queries),
            "bound_text": "arrays<=%d over {0..7}, multisets<=%d over half-lattice" % (5 if quick else 6, 3 if quick else 4)}]
-    long_sizes = A.sizes(36 if quick else 72, 1100 if quick else 70000, subpath="sorted_array_utils")
+    long_sizes = A.sizes(36 if quick else 72, 17000 if quick else 70000, subpath="sorted_array_utils")
     hs.append({"name": "long-arrays", "body": make_long_body(long_sizes, 36 if quick else 48),
                "bound_text": "sizes %s (dense range, 2^k+1, around every integer constant of the code); single queries, query pairs, full list" % _fmt_sizes(long_sizes)})
     # extension slice (quick: one of 2 array families selected by seed; thorough: both)
